@@ -23,6 +23,18 @@ PROPS = {
         "assumptions": ["std::fs::File::create / OpenOptions / fs::write are the only ways the hook creates files",
                         "a partially failed write_all (I/O fault) is outside the property's quantifier"],
     },
+    "C16": {
+        "module": "c16",
+        "explanation": "Who-may-write analysis over every field of the Environment shared by all files of one invocation (R48, "
+                       "exhaustive over the struct's fields, fail closed on new mutable fields): each is immutable after "
+                       "construction, a write-only sink, a memo cache or reset on every path from a per-file entry "
+                       "(FileBuilder::build, Builtins::import) to the file's evaluation; the memo discipline of the op, value "
+                       "and shape caches is checked on the CFG (R48m: insert only on the vacant/miss edge after success, never "
+                       "shrunk); R57 (verdict propagation) covers `build -r`. Not decided: byte equality of artifacts; "
+                       "positions stored inside cached import shapes.",
+        "assumptions": ["state that outlives a file lives in Environment (statics: only the reserved-word LazyLock, immutable)",
+                        "the repl is outside the property's quantifier"],
+    },
 }
 
 
